@@ -9,6 +9,8 @@
    c19_driver.py hammer  < params.json     per integrator type: T simulations of the same type at the same time in T threads vs sequentially
    c19_driver.py history < params.json     remove -> observe (save / copy / serve) -> add: all continuations equal the unobserved run
    c19_driver.py latestart < params.json   server started from a second thread while integrate() is running
+   c19_driver.py lifecycle < params.json   error paths of the server life cycle (port in use, start / stop twice, stop without start, free while
+                                           serving, start after stop) with other serving simulations and open archives as witnesses
    c19_driver.py teardown < params.json    create / serve / free (and stop+restart the server) under continuous client load
    c19_driver.py fdclose < params.json     save/load of one simulation while another simulation's server thread closes descriptors twice
    c19_driver.py w512    < params.json     (avx512 build) two WHFast512 simulations alternated step by step vs separately
@@ -1081,7 +1083,7 @@ def mode_incomplete(p):
         time.sleep(0.1)
         c0 = resource.getrusage(resource.RUSAGE_SELF).ru_utime; time.sleep(0.3); c1 = resource.getrusage(resource.RUSAGE_SELF).ru_utime
         res["steps"].append({"request": data[:40], "serves_after": serves(), "cpu_burnt_in_0.3s_idle": round(c1 - c0, 2)})
-    sim.integrate(p["tmax"]); res["integration_ok"] = sim.t >= p["tmax"]
+    sim.integrate(p["tmax"]); res["integration_ok"] = abs(sim.t - p["tmax"]) < 1e-9
     done = [False]
     def stop():
         sim.stop_server(); done[0] = True
@@ -1089,6 +1091,92 @@ def mode_incomplete(p):
     res["stop_server_returns"] = done[0]
     print(json.dumps(res)); sys.stdout.flush()
     os._exit(0)
+
+
+def mode_lifecycle(p):
+    """error paths of the server life cycle taken once, then the SAME process goes on with other simulations alive.
+    Oracle (independent simulations do not interfere): after every action each other simulation's server still answers with the snapshot
+    of ITS simulation, and each open Simulationarchive still returns its own snapshots."""
+    import gc
+    wd = enter_workdir()
+    rng = random.Random(p["seed"])
+    def mk(seed, steps):
+        s_ = build({"integrator": "whfast", "n": 3, "seed": seed, "dt": 0.01})
+        if steps: s_.steps(steps)
+        return s_
+    def fp(sim_or_bytes):
+        s_ = rebound.Simulation(sim_or_bytes) if isinstance(sim_or_bytes, (bytes, bytearray)) else sim_or_bytes
+        return (float(s_.t).hex(), sha("".join(particle_bits(s_)).encode()))
+    # witnesses: two serving simulations and two open archives, each with its own content
+    live = {}
+    for name, seed in (("A", 101), ("C", 303)):
+        s_ = mk(seed, 5); live[name] = {"sim": s_, "port": start_server_robust(s_, rng), "fp": fp(s_)}
+    archives = {}
+    for name, seed in (("X", 404), ("Y", 505)):
+        path = os.path.join(wd, name + ".bin")
+        s_ = mk(seed, 0); s_.save_to_file(path, delete_file=True); s_.steps(3); s_.save_to_file(path); s_.steps(3); s_.save_to_file(path)
+        expected = [fp(rebound.Simulation(path, snapshot=i)) for i in range(3)]
+        archives[name] = {"sa": rebound.Simulationarchive(path), "expected": expected}
+    log = []
+    def witnesses(action):
+        bad = []
+        for name, w in live.items():
+            try:
+                got = fp(fetch(w["port"], timeout=3))
+                if got != w["fp"]: bad.append("server %s answers with a different simulation" % name)
+            except Exception as e:
+                bad.append("server %s does not answer: %s" % (name, type(e).__name__))
+        for name, a in archives.items():
+            for i in (2, 0, 1):
+                try:
+                    if fp(a["sa"][i]) != a["expected"][i]: bad.append("archive %s snapshot %d returns other bytes" % (name, i))
+                except Exception as e:
+                    bad.append("archive %s snapshot %d: %s" % (name, i, type(e).__name__))
+        log.append({"action": action, "bad": bad})
+    def expect_error(f):
+        try:
+            f(); return "no error"
+        except RuntimeError as e:
+            return "RuntimeError"
+        except Exception as e:
+            return type(e).__name__
+    def open_things():
+        """whoever opens something next gets the lowest free descriptor numbers"""
+        s_ = mk(rng.randint(1, 10 ** 6), 2)
+        name = "N%d" % len(live)
+        live[name] = {"sim": s_, "port": start_server_robust(s_, rng), "fp": fp(s_)}
+        path = os.path.join(wd, name + ".bin")
+        t_ = mk(rng.randint(1, 10 ** 6), 0); t_.save_to_file(path, delete_file=True); t_.steps(2); t_.save_to_file(path); t_.steps(2); t_.save_to_file(path)
+        archives[name] = {"sa": rebound.Simulationarchive(path), "expected": [fp(rebound.Simulation(path, snapshot=i)) for i in range(3)]}
+    witnesses("initial")
+    # 1. port in use -> refused; others open descriptors; the refused simulation is stopped / freed
+    for how in ("free", "stop"):
+        b = mk(202, 1)
+        r_ = expect_error(lambda: b.start_server(port=live["A"]["port"]))
+        witnesses("start on a port in use (%s)" % r_)
+        open_things(); witnesses("others opened descriptors after the refused start")
+        if how == "free":
+            del b; gc.collect()
+        else:
+            b.stop_server(); b.stop_server()
+        witnesses("refused simulation %s" % ("freed" if how == "free" else "stopped twice"))
+        open_things(); witnesses("others opened descriptors afterwards")
+    # 2. start twice on the same simulation, stop twice, stop without start, start after stop
+    d = mk(606, 1); pd = start_server_robust(d, rng)
+    r_ = expect_error(lambda: d.start_server(port=free_port(rng))); witnesses("second start on a serving simulation (%s)" % r_)
+    d.stop_server(); witnesses("stop"); open_things(); d.stop_server(); witnesses("second stop after others opened descriptors")
+    e = mk(707, 1); e.stop_server(); witnesses("stop without start")
+    pd2 = start_server_robust(d, rng); ok_ = fp(fetch(pd2, timeout=3)) == fp(d); witnesses("start after stop (serves: %s)" % ok_)
+    # 3. free while serving (clients polling)
+    cl = start_clients(pd2, wd, [0.0, 0.0], [0.0, 0.0], False); time.sleep(0.1)
+    del d; gc.collect(); stop_clients(*cl); witnesses("freed while serving")
+    open_things(); witnesses("others opened descriptors after that")
+    for w in live.values():
+        try: w["sim"].stop_server()
+        except Exception: pass
+    bad = [x for x in log if x["bad"]]
+    os.chdir("/"); shutil.rmtree(wd, ignore_errors=True)
+    return {"actions": len(log), "servers": len(live), "archives": len(archives), "violations": bad[:4], "n_bad": len(bad), "trace": [x["action"] for x in log]}
 
 
 def mode_teardown(p):
@@ -1195,7 +1283,7 @@ if __name__ == "__main__":
     if mode == "client":
         mode_client(); sys.stdout.flush(); os._exit(0)
     params = json.load(sys.stdin)
-    res = {"conc": mode_conc, "server": mode_server, "torn": mode_torn, "w512": mode_w512, "fdclose": mode_fdclose, "steps": mode_steps, "keyboard": mode_keyboard, "coresident": mode_coresident, "teardown": mode_teardown, "hammer": mode_hammer, "compress": mode_compress, "history": mode_history, "latestart": mode_latestart, "incomplete": mode_incomplete}[mode](params)
+    res = {"conc": mode_conc, "server": mode_server, "torn": mode_torn, "w512": mode_w512, "fdclose": mode_fdclose, "steps": mode_steps, "keyboard": mode_keyboard, "coresident": mode_coresident, "teardown": mode_teardown, "hammer": mode_hammer, "compress": mode_compress, "history": mode_history, "latestart": mode_latestart, "incomplete": mode_incomplete, "lifecycle": mode_lifecycle}[mode](params)
     print(json.dumps(res))
     sys.stdout.flush()
     os._exit(0)
